@@ -23,4 +23,61 @@ package test
 //@   modifies lastUntil
 //@   ensures [nil] err == nil
 
+// ---- Bridge (C18): queues and reorder stacks are sequences of messages (slices); reference semantics per operation.
+//@ monitor Bridge mutex: queue0to1, queue1to0, dropNWrites0, dropNWrites1, reorderNWrites0, reorderNWrites1, stack0, stack1, filterCB0, filterCB1, err
+
+//@ func inverse(s [][]byte) (err error)
+//@   modifies s[*]
+//@   ensures [short] len(s) < 2 ==> err != nil && (forall k mathint :: {s[k]} 0 <= k && k < len(s) ==> s[k] == old(s[k]))
+//@   ensures [mirror] len(s) >= 2 ==> err == nil && (forall k mathint :: {s[k]} 0 <= k && k < len(s) ==> s[k] == old(s[len(s) - 1 - k]))
+//@   loop 1 invariant [mirror] 0 <= i && j == len(s) - 1 - i && i <= j + 1 &&
+//@        (forall k mathint :: {s[k]} 0 <= k && k < i ==> s[k] == old(s[len(s) - 1 - k])) &&
+//@        (forall k mathint :: {s[k]} j < k && k < len(s) ==> s[k] == old(s[len(s) - 1 - k])) &&
+//@        (forall k mathint :: {s[k]} i <= k && k <= j ==> s[k] == old(s[k]))
+
+//@ func drop(s [][]byte, offset int, n int) (r [][]byte)
+//@   requires 0 <= offset && offset <= len(s) && n >= 0 && n < 4611686018427387904
+//@   modifies s[*]
+//@   ensures [len] len(r) == len(s) - min(n, len(s) - offset)
+//@   ensures [head] forall k mathint :: {r[k]} 0 <= k && k < offset ==> r[k] == old(s[k])
+//@   ensures [tail] forall k mathint :: {r[k]} offset <= k && k < len(r) ==> r[k] == old(s[k + min(n, len(s) - offset)])
+
+//@ pure sameSeq(a [][]byte, b [][]byte) bool = len(a) == len(b) && (forall k mathint :: {a[k]} 0 <= k && k < len(a) ==> a[k] == b[k])
+//@ pure isCopy(m []byte, p []byte) bool = len(m) == len(p) && (forall i mathint :: {m[i]} 0 <= i && i < len(m) ==> m[i] == p[i])
+
+//@ func (br *Bridge) Push(packet []byte, fromID int) (ok bool)
+//@   requires br.conn0 != nil && br.conn1 != nil
+//@   ensures [ok] !br.conn0.closing && !br.conn1.closing ==> ok
+//@   ensures [d0.drop] !br.conn0.closing && !br.conn1.closing && fromID == 0 && atlock(br.dropNWrites0) > 0 ==> br.dropNWrites0 == atlock(br.dropNWrites0) - 1 && br.reorderNWrites0 == atlock(br.reorderNWrites0) && sameSeq(br.queue0to1, atlock(br.queue0to1)) && sameSeq(br.stack0, atlock(br.stack0))
+//@   ensures [d0.stack] !br.conn0.closing && !br.conn1.closing && fromID == 0 && atlock(br.dropNWrites0) <= 0 && atlock(br.reorderNWrites0) > 1 ==> br.reorderNWrites0 == atlock(br.reorderNWrites0) - 1 && sameSeq(br.queue0to1, atlock(br.queue0to1)) &&
+//@            len(br.stack0) == atlock(len(br.stack0)) + 1 && isCopy(br.stack0[atlock(len(br.stack0))], packet) &&
+//@            (forall k mathint :: {br.stack0[k]} 0 <= k && k < atlock(len(br.stack0)) ==> br.stack0[k] == atlock(br.stack0[k]))
+//@   ensures [d0.flush] !br.conn0.closing && !br.conn1.closing && fromID == 0 && atlock(br.dropNWrites0) <= 0 && atlock(br.reorderNWrites0) == 1 ==> br.reorderNWrites0 == 0 && len(br.stack0) == 0 &&
+//@            len(br.queue0to1) == atlock(len(br.queue0to1)) + atlock(len(br.stack0)) + 1 && isCopy(br.queue0to1[atlock(len(br.queue0to1))], packet) &&
+//@            (forall k mathint :: {br.queue0to1[k]} 0 <= k && k < atlock(len(br.queue0to1)) ==> br.queue0to1[k] == atlock(br.queue0to1[k])) &&
+//@            (forall j mathint :: {atlock(br.stack0[j])} 0 <= j && j < atlock(len(br.stack0)) ==> br.queue0to1[atlock(len(br.queue0to1)) + atlock(len(br.stack0)) - j] == atlock(br.stack0[j]))
+//@   ensures [d0.plain] !br.conn0.closing && !br.conn1.closing && fromID == 0 && atlock(br.dropNWrites0) <= 0 && atlock(br.reorderNWrites0) <= 0 && atlock(br.filterCB0) == nil ==> sameSeq(br.stack0, atlock(br.stack0)) &&
+//@            len(br.queue0to1) == atlock(len(br.queue0to1)) + 1 && isCopy(br.queue0to1[atlock(len(br.queue0to1))], packet) &&
+//@            (forall k mathint :: {br.queue0to1[k]} 0 <= k && k < atlock(len(br.queue0to1)) ==> br.queue0to1[k] == atlock(br.queue0to1[k]))
+//@   ensures [d0.filter] !br.conn0.closing && !br.conn1.closing && fromID == 0 && atlock(br.dropNWrites0) <= 0 && atlock(br.reorderNWrites0) <= 0 && atlock(br.filterCB0) != nil ==> sameSeq(br.stack0, atlock(br.stack0)) &&
+//@            (sameSeq(br.queue0to1, atlock(br.queue0to1)) || (len(br.queue0to1) == atlock(len(br.queue0to1)) + 1 && isCopy(br.queue0to1[atlock(len(br.queue0to1))], packet) &&
+//@            (forall k mathint :: {br.queue0to1[k]} 0 <= k && k < atlock(len(br.queue0to1)) ==> br.queue0to1[k] == atlock(br.queue0to1[k]))))
+//@   ensures [d0.other] !br.conn0.closing && !br.conn1.closing && fromID == 0 ==> sameSeq(br.queue1to0, atlock(br.queue1to0)) && sameSeq(br.stack1, atlock(br.stack1))
+//@   ensures [d1.drop] !br.conn0.closing && !br.conn1.closing && fromID != 0 && atlock(br.dropNWrites1) > 0 ==> br.dropNWrites1 == atlock(br.dropNWrites1) - 1 && br.reorderNWrites1 == atlock(br.reorderNWrites1) && sameSeq(br.queue1to0, atlock(br.queue1to0)) && sameSeq(br.stack1, atlock(br.stack1))
+//@   ensures [d1.stack] !br.conn0.closing && !br.conn1.closing && fromID != 0 && atlock(br.dropNWrites1) <= 0 && atlock(br.reorderNWrites1) > 1 ==> br.reorderNWrites1 == atlock(br.reorderNWrites1) - 1 && sameSeq(br.queue1to0, atlock(br.queue1to0)) &&
+//@            len(br.stack1) == atlock(len(br.stack1)) + 1 && isCopy(br.stack1[atlock(len(br.stack1))], packet) &&
+//@            (forall k mathint :: {br.stack1[k]} 0 <= k && k < atlock(len(br.stack1)) ==> br.stack1[k] == atlock(br.stack1[k]))
+//@   ensures [d1.flush] !br.conn0.closing && !br.conn1.closing && fromID != 0 && atlock(br.dropNWrites1) <= 0 && atlock(br.reorderNWrites1) == 1 ==> br.reorderNWrites1 == 0 && len(br.stack1) == 0 &&
+//@            len(br.queue1to0) == atlock(len(br.queue1to0)) + atlock(len(br.stack1)) + 1 && isCopy(br.queue1to0[atlock(len(br.queue1to0))], packet) &&
+//@            (forall k mathint :: {br.queue1to0[k]} 0 <= k && k < atlock(len(br.queue1to0)) ==> br.queue1to0[k] == atlock(br.queue1to0[k])) &&
+//@            (forall j mathint :: {atlock(br.stack1[j])} 0 <= j && j < atlock(len(br.stack1)) ==> br.queue1to0[atlock(len(br.queue1to0)) + atlock(len(br.stack1)) - j] == atlock(br.stack1[j]))
+//@   ensures [d1.plain] !br.conn0.closing && !br.conn1.closing && fromID != 0 && atlock(br.dropNWrites1) <= 0 && atlock(br.reorderNWrites1) <= 0 && atlock(br.filterCB1) == nil ==> sameSeq(br.stack1, atlock(br.stack1)) &&
+//@            len(br.queue1to0) == atlock(len(br.queue1to0)) + 1 && isCopy(br.queue1to0[atlock(len(br.queue1to0))], packet) &&
+//@            (forall k mathint :: {br.queue1to0[k]} 0 <= k && k < atlock(len(br.queue1to0)) ==> br.queue1to0[k] == atlock(br.queue1to0[k]))
+//@   ensures [d1.filter] !br.conn0.closing && !br.conn1.closing && fromID != 0 && atlock(br.dropNWrites1) <= 0 && atlock(br.reorderNWrites1) <= 0 && atlock(br.filterCB1) != nil ==> sameSeq(br.stack1, atlock(br.stack1)) &&
+//@            (sameSeq(br.queue1to0, atlock(br.queue1to0)) || (len(br.queue1to0) == atlock(len(br.queue1to0)) + 1 && isCopy(br.queue1to0[atlock(len(br.queue1to0))], packet) &&
+//@            (forall k mathint :: {br.queue1to0[k]} 0 <= k && k < atlock(len(br.queue1to0)) ==> br.queue1to0[k] == atlock(br.queue1to0[k]))))
+//@   ensures [d1.other] !br.conn0.closing && !br.conn1.closing && fromID != 0 ==> sameSeq(br.queue0to1, atlock(br.queue0to1)) && sameSeq(br.stack0, atlock(br.stack0))
+
+//@ property C18: inverse, drop, Bridge.Push
 //@ property C10: bridgeConn.Read, bridgeConn.SetReadDeadline
